@@ -169,6 +169,8 @@ def h_kernel(env, name, what):
                 if "White" not in name:   # a noise kernel is by definition k(X) != k(X, X) on the diagonal
                     env.equal("k(X)=k(X,X)_%d%d" % (i, j), kxx[i, j], kxx2[i, j])
         env.equal("k(X,X)_symmetric", kxx[0, 1], kxx[1, 0])
+    elif what == "symmetry_blocked":
+        _h_blocked(env, k, d, name)
     elif what == "input_gradient":
         ok, out = env.attempt("k_and_deriv_returns", lambda: k.k_and_deriv(X.copy(), Y.copy()))
         if not ok:
@@ -211,6 +213,50 @@ def h_kernel(env, name, what):
         kxx = k(X.copy())
         env.nonneg("k11_nonnegative", kxx[0, 0])
         env.nonneg("det_2x2_nonnegative", kxx[0, 0] * kxx[1, 1] - kxx[0, 1] * kxx[1, 0])
+
+
+def _block_sources(env):
+    import sklearn.gaussian_process.kernels as skk
+    return [common.real_mods("kernels").kernels.__file__ if not env.sym else env.m.kernels.__file__, skk.__file__]
+
+
+def _h_blocked(env, k, d, name, n=3):
+    """diag(X) = diag k(X) = diag k(X, X) when the routines work through X in internal blocks.  Symbolic run: every chunk-size
+    literal of the kernel modules (assignments to names containing blk/block/chunk/batch, routed through loader._BLK) resolves to
+    2, so 3 samples span two blocks.  Concrete replay on the unmodified code: the 3 samples are tiled to (largest such literal) + 3
+    rows so that they are the last three rows of the array, i.e. lie beyond the first real block."""
+    from .. import loader
+    X3 = env.arr("X", (n, d), lo="-4", hi="4")
+    lits = set()
+    for f in _block_sources(env):
+        lits |= loader.block_literals(f)
+    if env.sym:
+        loader.BLOCK_OVERRIDE_ALL[0] = 2
+        try:
+            ok, dg = env.attempt("diag_returns", lambda: k.diag(X3.copy()))
+            if not ok:
+                return
+            kxx = k(X3.copy())
+            kxx2 = k(X3.copy(), X3.copy())
+        finally:
+            loader.BLOCK_OVERRIDE_ALL[0] = None
+        off = 0
+    else:
+        N = (max(lits) + n) if lits else n
+        reps = -(-N // n) + 1
+        Xt = np.ascontiguousarray(np.tile(np.asarray(X3, dtype=float), (reps, 1))[-N:])
+        off = N - n
+        dg = k.diag(Xt.copy())
+        kxx = k(Xt.copy())
+        kxx2 = k(Xt.copy(), Xt.copy())
+    env.tags.append("chunk-size literals in the kernel modules: %s" % (sorted(lits) or "none"))
+    for i in range(n):
+        env.equal("diag_%d" % i, dg[off + i], kxx[off + i, off + i])
+        for j in range(n):
+            if "White" not in name:
+                env.equal("k(X)=k(X,X)_%d%d" % (i, j), kxx[off + i, off + j], kxx2[off + i, off + j])
+            if j > i:
+                env.equal("k(X)_symmetric_%d%d" % (i, j), kxx[off + i, off + j], kxx[off + j, off + i])
 
 
 def _hyper_names(env, k):
@@ -324,6 +370,10 @@ def tasks(tier):
             if n == "Antisym" and what == "theta_gradient":
                 continue      # documented NotImplementedError
             out.append(Task("%s/%s" % (n, what), h_kernel, dict(name=n, what=what), mods="kernels", max_paths=64))
+    for n in names:
+        if n == "Antisym":
+            continue      # its diag() is a recorded finding (C15-DiffAntisymRBF-diag, task Antisym/symmetry)
+        out.append(Task("%s/symmetry_blocked" % n, h_kernel, dict(name=n, what="symmetry_blocked"), mods="kernels", max_paths=64))
     for n in PSD_KERNELS:
         out.append(Task("%s/psd2" % n, h_kernel, dict(name=n, what="psd2"), mods="kernels"))
     for n in ("SpinSymRBF", "SpinSymPoly") + (("SpinSymARBF",) if tier == "thorough" else ()):
@@ -343,7 +393,7 @@ def prepare(tier):
 META = dict(
     explanation="symbolic execution of ciderpress/models/kernels.py *and* of scikit-learn's kernels.py (both from source) on 2 x d symbolic "
                 "inputs with symbolic hyper-parameters; automatic differentiation of the returned kernel values is the oracle for k_and_deriv and eval_gradient",
-    functions=["ciderpress/models/kernels.py: every kernel class listed in coverage.bounds.kernels (__call__, diag, k_and_deriv), _SubsetMixin, _SpinSymMixin, DiffSum/DiffProduct/DiffExponentiation/DiffTransform",
+    functions=['ciderpress/models/kernels.py: diag / __call__ of every listed kernel with chunk-size literals scaled to 2 (*/symmetry_blocked)', "ciderpress/models/kernels.py: every kernel class listed in coverage.bounds.kernels (__call__, diag, k_and_deriv), _SubsetMixin, _SpinSymMixin, DiffSum/DiffProduct/DiffExponentiation/DiffTransform",
                "sklearn/gaussian_process/kernels.py: RBF.__call__, Sum/Product/Exponentiation/ConstantKernel/WhiteKernel.__call__, Kernel.theta/hyperparameters (executed, not stubbed)"],
     bounds=dict(X="2 x d, d in {3, 4}, entries in [-4, 4]", Y="2 x d", hyperparameters="symbolic positive in [1/8, 8]", orders="<= 2 (quick), <= 3 (thorough)",
                 kernels=KERNELS_THOROUGH, psd="2 x 2 only: " + ", ".join(PSD_KERNELS)),
